@@ -47,7 +47,8 @@ def generate(tier, rng, hist):
         out.append("vlq.dec " + hx(chr(cp)))
     bump(hist, "single_bytes", 256)
     # exhaustive short strings over the alphabet
-    L = 3 if tier == "quick" else 4
+    widened = globals().get("WIDENED", False)   # thorough generators run inside a quick command (source anchors changed)
+    L = 3 if (tier == "quick" or widened) else 4
     def rec(prefix, depth):
         if depth == 0:
             return
@@ -107,8 +108,8 @@ def generate(tier, rng, hist):
             out.append("vlq.range %d %d" % (lo, lo + step))
         bump(hist, "range_pm_2^22", 1)
     else:
-        W = (1 << 32)
-        step = 1 << 25
+        W = (1 << 28) if widened else (1 << 32)
+        step = (1 << 22) if widened else (1 << 25)
         for lo in range(-W, W, step):
             out.append("vlq.range %d %d" % (lo, min(lo + step, W)))
         bump(hist, "range_pm_2^32", 1)
